@@ -83,8 +83,16 @@ def gen_sequence(rng, root):
                     else:
                         changes.append(((sl + 1 + len(p_text.client_lines(base)), sc, el + 99, ec), ins, "line-beyond")); cur = None
                 elif kind == 6:
-                    which = rng.randrange(4)
-                    if which == 0:
+                    which = rng.randrange(5)
+                    if which == 4:
+                        # column near the top of the u32 range on an existing line: LSP clamps to the line end
+                        big = 4294967295 - rng.choice([0, 0, 1, 2, 13, rng.randrange(0, 64)])
+                        changes.append(((sl, sc, el, big), ins, "col-beyond"))
+                        if cur is not None:
+                            e2 = client_clamp(cur, el, big)
+                            new = cur[:si] + ins + cur[e2:] if e2 is not None and e2 >= si else None
+                            cur = new if new is not None and p_text.wf_crlf(new) else None
+                    elif which == 0:
                         changes.append(((sl, sc, el + len(p_text.client_lines(base)), ec), ins, "line-beyond")); cur = None
                     elif which == 1:
                         # column beyond the line end: LSP clamps
